@@ -42,6 +42,10 @@ def cflt(x):
     return f'(SpecFloat.S754_finite {neg} {m}%positive ({e})%Z)'
 
 
+PY_TABLE = {}        # function name -> [{'name', 'type', 'nullable', 'last', 'integer', 'has_default'}] (for the harness generators)
+PY_FUNCTIONS = []    # keys of SCRIPT_FUNCTIONS
+
+
 def generate(ctx):
     TE = ctx.TranslateError
     tree, _ = ctx.read_module('library.py')
@@ -73,12 +77,14 @@ def generate(ctx):
 
     # ---- the argument models:  _X_ARGS = value_args_model([ {...}, ... ])
     models = {}
+    pymodels = {}
     for name, val in assigns.items():
         if not (isinstance(val, ast.Call) and isinstance(val.func, ast.Name) and val.func.id == 'value_args_model'):
             continue
         if len(val.args) != 1 or val.keywords or not isinstance(val.args[0], ast.List):
             raise TE(f'library.py:{name}: value_args_model argument is not a list literal')
         specs = []
+        pyspecs = []
         for i, d in enumerate(val.args[0].elts):
             where = f'library.py:{name}[{i}]'
             if not isinstance(d, ast.Dict):
@@ -114,7 +120,10 @@ def generate(ctx):
             b2c = {True: 'true', False: 'false'}
             specs.append(f'mk_argspec {ctx.coq_str(aname)} {atype} {b2c[nullable]} {default} {b2c[last]} {b2c[integer]} '
                          + ' '.join(bounds))
+            pyspecs.append({'name': aname, 'type': ctx.const_str(fields['type'], where) if 'type' in fields else None,
+                            'nullable': nullable, 'last': last, 'integer': integer, 'has_default': 'default' in fields})
         models[name] = specs
+        pymodels[name] = pyspecs
 
     # ---- the functions: which model each validates against, and the failure value
     funcs = {node.name: node for node in tree.body if isinstance(node, ast.FunctionDef)}
@@ -122,6 +131,8 @@ def generate(ctx):
     if not isinstance(sf, ast.Dict):
         raise TE('library.py: SCRIPT_FUNCTIONS is not a dict literal')
     script_functions = []
+    PY_TABLE.clear()
+    PY_FUNCTIONS.clear()
     rows = []
     integer_args = []
     url_safe = []
@@ -131,6 +142,7 @@ def generate(ctx):
         if not isinstance(v, ast.Name) or v.id not in funcs:
             raise TE(f'library.py:SCRIPT_FUNCTIONS[{fname!r}] is not a module-level function')
         script_functions.append(fname)
+        PY_FUNCTIONS.append(fname)
         fn = funcs[v.id]
         if len(fn.args.args) != 2 or fn.args.vararg or fn.args.kwarg or fn.args.kwonlyargs or fn.args.defaults:
             raise TE(f'library.py:{v.id}: signature is not (args, options)')
@@ -179,6 +191,7 @@ def generate(ctx):
                     fail = f'(FLit {lit(a3, where)})'
             mname = c.args[0].id
             used_models.add(mname)
+            PY_TABLE[fname] = pymodels[mname]
             rows.append(f'({ctx.coq_str(fname)}, ({ctx.coq_list(models[mname])},\n     {fail}))')
             # integer arguments (for the C12 coverage obligation)
             lst = val_integer_args(ctx, assigns[mname])
